@@ -766,6 +766,8 @@ pub struct GenCfg {
     pub typed: bool,
     pub changes: bool,
     pub bytewise: bool,
+    /// inject only write faults, rarely (the read side stays intact)
+    pub wfaults: bool,
 }
 
 /// one schedule, generated online; returns the op line
@@ -853,7 +855,7 @@ pub fn gen_schedule(r: &mut Rng, g: &GenCfg, steps: usize, prop: &str) -> String
         }
         for _ in 0..steps {
             let connected = w.connected();
-            let a = r.below(if faulted { 9 } else if g.faults { 14 } else { 12 });
+            let a = r.below(if faulted { 9 } else if g.faults || g.wfaults { 14 } else { 12 });
             match a {
                 // requests
                 0 | 1 | 2 if connected && main_alive => {
@@ -868,7 +870,7 @@ pub fn gen_schedule(r: &mut Rng, g: &GenCfg, steps: usize, prop: &str) -> String
                         let limit = *r.pick(&[1usize, 2, 3, 6, 7, 50, 4096, 8192]);
                         let limit = if size / limit > 60 { size / 40 + 1 } else { limit };
                         let emb = *r.pick(&["y", "y", "n", "5", "50", "2"]);
-                        let file = *r.pick(&["y", "y", "n", "50"]);
+                        let file = *r.pick(&["y", "y", "n", "50", "5", "2"]);
                         let uri = format!("art_{}_{}_{}_{}_{}", size, limit, emb, file, r.below(2));
                         do_act(&mut w, &mut sv, &mut actions, format!("a{}:{}", rid, hex(uri.as_bytes()))).await;
                     } else if g.typed && pick < 8 {
@@ -926,6 +928,12 @@ pub fn gen_schedule(r: &mut Rng, g: &GenCfg, steps: usize, prop: &str) -> String
                     main_alive = false;
                     do_act(&mut w, &mut sv, &mut actions, "x".to_string()).await;
                 }
+                12 | 13 if !faulted && !g.faults && g.wfaults => {
+                    if r.chance(1, 10) {
+                        faulted = true;
+                        do_act(&mut w, &mut sv, &mut actions, format!("w{}", r.below(IO_KINDS.len()))).await;
+                    }
+                }
                 12 | 13 if !faulted && r.chance(1, 3) => {
                     faulted = true;
                     match r.below(5) {
@@ -949,7 +957,19 @@ pub fn gen_schedule(r: &mut Rng, g: &GenCfg, steps: usize, prop: &str) -> String
                             do_act(&mut w, &mut sv, &mut actions, "e".to_string()).await;
                         }
                         _ => {
-                            let garbage: &[u8] = *r.pick(&[&b"@@garbage\n"[..], b"OK\n", b"ACK [1@0] {} injected\n", b"foo: bar\nOK\n", b"\xff\xfe\n"]);
+                            let garbage: &[u8] = *r.pick(&[
+                                &b"@@garbage\n"[..],
+                                b"OK\n",
+                                b"ACK [1@0] {} injected\n",
+                                b"foo: bar\nOK\n",
+                                b"\xff\xfe\n",
+                                // malformed binary sections (the parser's `cut` paths)
+                                b"binary: abc\n",
+                                b"binary: 3\nABCD\n",
+                                b"binary: 18446744073709551616\n",
+                                b"foo: bar\nbinary: 2\nABC",
+                                b"binary: -1\n",
+                            ]);
                             do_act(&mut w, &mut sv, &mut actions, format!("d{}", hex(garbage))).await;
                         }
                     }
@@ -982,13 +1002,13 @@ pub fn gen(cfg: &Cfg) -> Vec<String> {
     let scale = if cfg.thorough { 25 } else { 1 };
     let mut ops = Vec::new();
     let (n, g) = match cfg.prop.as_str() {
-        "C01" => (cfg.n.unwrap_or(1200 * scale), GenCfg { faults: false, password: false, art: false, typed: false, changes: true, bytewise: true }),
-        "C04" => (cfg.n.unwrap_or(1200 * scale), GenCfg { faults: false, password: false, art: false, typed: false, changes: true, bytewise: true }),
-        "C05" => (cfg.n.unwrap_or(1200 * scale), GenCfg { faults: false, password: false, art: false, typed: false, changes: true, bytewise: false }),
-        "C08" => (cfg.n.unwrap_or(1500 * scale), GenCfg { faults: true, password: false, art: false, typed: false, changes: true, bytewise: false }),
-        "C13" => (cfg.n.unwrap_or(600 * scale), GenCfg { faults: false, password: false, art: false, typed: true, changes: false, bytewise: false }),
-        "C17" => (cfg.n.unwrap_or(500 * scale), GenCfg { faults: false, password: false, art: true, typed: false, changes: true, bytewise: false }),
-        "C18" => (cfg.n.unwrap_or(600 * scale), GenCfg { faults: true, password: true, art: false, typed: false, changes: false, bytewise: true }),
+        "C01" => (cfg.n.unwrap_or(1200 * scale), GenCfg { faults: false, password: false, art: false, typed: false, changes: true, bytewise: true, wfaults: false }),
+        "C04" => (cfg.n.unwrap_or(1200 * scale), GenCfg { faults: false, password: false, art: false, typed: false, changes: true, bytewise: true, wfaults: true }),
+        "C05" => (cfg.n.unwrap_or(1200 * scale), GenCfg { faults: false, password: false, art: false, typed: false, changes: true, bytewise: false, wfaults: false }),
+        "C08" => (cfg.n.unwrap_or(1500 * scale), GenCfg { faults: true, password: false, art: false, typed: false, changes: true, bytewise: false, wfaults: false }),
+        "C13" => (cfg.n.unwrap_or(600 * scale), GenCfg { faults: false, password: false, art: false, typed: true, changes: true, bytewise: true, wfaults: false }),
+        "C17" => (cfg.n.unwrap_or(500 * scale), GenCfg { faults: false, password: false, art: true, typed: false, changes: true, bytewise: false, wfaults: false }),
+        "C18" => (cfg.n.unwrap_or(600 * scale), GenCfg { faults: true, password: true, art: false, typed: false, changes: false, bytewise: true, wfaults: false }),
         other => panic!("family loop does not serve property {other}"),
     };
     for i in 0..n {
